@@ -79,17 +79,17 @@ EXPLANATION = {
     "C03": _COMMON + "Per-operator protocol preservation for the 32 MuxObservable construction sites: MX-1..4 per-kind lifecycle "
            "obligations, LV typestate of child keys in the five grouping heads (ghost state P = liveness downstream, S = liveness recorded in "
            "the store, invariant S = P while the parent is live), MX-5 sandwich and demux, EV-1 event typing (a handler reads only the fields the event kind has on every path of that kind; events sent on carry the store of the event handled; the event classes of the tree have the field lists the model assumes, else exit 2), MX-6 root (and with_store on several sources: probe, then set_topology, then subscribe), ST-8 store call arguments, MX-7 tee_map de-duplication, MX-8 "
-           "terminals add no events, WC-2 constructor frame. The induction over composition is stated in DESIGN.md, not mechanised.",
+           "terminals add no events, WC-2 constructor frame. The induction over composition is stated in DESIGN.md, not mechanised. Also MS-1..5 of the memory store, whose add_key / del_key semantics the grouping heads rely on.",
     "C04": _COMMON + "Decided clauses: EQ-1 no identity comparison on user values in group_by / MemoryStore; FW-1 every item is forwarded "
            "unchanged to exactly the child whose index is the map entry of key_mapper(item); FL-1 open groups are flushed by iterating the "
            "parent's dict itself (insertion order); LV for group_by; MS-1..5 incl. the group-index allocator (a popped free slot or next_index, per mapper state). Not decided: hash/eq consistency of user keys.",
     "C05": _COMMON + "Decided clauses: DP-0 every item is delivered once to every open window (delivery loop covers the whole ring; FW-1 for the tumbling variant); DP-1 counter incremented exactly once per item and reset with the parent; DP-2 a window opens iff "
            "counter % stride == 0 in slot (counter // stride) % density storing the counter, and closes iff counter - start + 1 == window "
            "(tests compared in linear normal form; the tumbling implementation is chosen exactly when window == stride); DP-3 partial windows are flushed from slot ceil(counter / stride) % density; ST-2/3/4/6 on the slot ring (scoped to roll.py); LV. Not "
-           "decided: that density = ceil(window/stride) slots suffice (explicit assumption), exact window contents.",
+           "decided: that density = ceil(window/stride) slots suffice (explicit assumption), exact window contents. Also the per-key-state obligations of the memory store (roll relies on add_key to start a lifetime from its defaults).",
     "C06": _COMMON + "Decided clauses: EQ-1 in split.py; FW-1; DP-4 the boundary test is ==/!= between predicate(item) and the stored "
            "predicate, after every item the stored predicate is that of the item, and child events are Create,Next / Completed,Create,Next / "
-           "Next; LV (first segment opened by the first item, last one closed at parent completion iff open).",
+           "Next; LV (first segment opened by the first item, last one closed at parent completion iff open); the first item of a key opens exactly one segment (x != x is not assumed false for user values: NaN); the per-key-state obligations of the memory store (add_key re-initialises a slot).",
     "C07": _COMMON + "Decided clauses: CMP-1 each timeout test normalises to new - reference - timeout >= 0 with the active reference the "
            "stored window start and the inactive one the stored last timestamp; DP-5 bookkeeping of both timestamps; ORD-1 event order per "
            "include_closing_item and closing_mapper consulted only when not expired; OPT-1 an explicit zero timeout is a timeout (only None disables one); FW-1; LV; the per-key-state obligations of the memory store. Not decided: arithmetic on timestamps.",
@@ -98,7 +98,7 @@ EXPLANATION = {
            "de-duplication; AG-3 mux and plain joins agree. Not decided: behaviour of the branches themselves.",
     "C09": _COMMON + "Decided clauses: SD-1 the seed reaches accumulator/terminator/state/output only through seed() or deepcopy(seed), seed() exactly where callable(seed) holds "
            "(13 scan call sites classified); SD-2 typed state of literal seeds; SC-1 fold skeleton per (reduce, terminator); SC-2 count adds exactly 1 per item whatever the item, to_list / to_array append the item itself once and return the collection; AG-3 scan_mux = scan_obs skeletons; PU-1 "
-           "accumulators do not mutate items or free state and mappers downstream of a scan do not mutate the live accumulator.",
+           "accumulators do not mutate items or free state and mappers downstream of a scan do not mutate the live accumulator. Also SUB-1/SUB-2/GEN-1 (what the plain scan remembers belongs to one subscription) and the per-key-state obligations of the memory store.",
     "C10": _COMMON + "Decided clauses: FW-2 per-path emission multiplicity and bookkeeping of first, take (countdown > 0, minus exactly 1), "
            "last, pad_start/pad_end (one padding item per element of range(size)), start_with, lag(1)/lag(n) and the dispatch between them, distinct; OPT-1 an explicit falsy padding value pads like any other explicit value (only 'is None' means not given); DP-6 batch flag is len(batch) == batch_size on every path, a new list holding only the item is started exactly after a complete batch, and the "
            "terminator flags the pending list exactly when it was not already emitted and is not empty; DP-8 seed slots compared by value are private markers; SO-1 sort delegates to one stable sorted(items, key=key, reverse=reverse); SO-2 to_deque (the last stage of sort) queues at the right end, emits nothing before completion, then empties the queue from the left end and completes once; EQ-1.",
